@@ -97,7 +97,7 @@ Proof.
 Qed.
 
 (* ---- lists of axes (move_axis) ---- *)
-Lemma norm_axis_mod r a : 1 <= r ->
+Lemma norm_axis_zmod r a : 1 <= r ->
   norm_axis r a = if zout (Z.of_nat r) a then None else Some (Z.to_nat (a mod Z.of_nat r)).
 Proof.
   intros Hr. unfold norm_axis, zout.
@@ -108,11 +108,11 @@ Proof.
   - rewrite Z.mod_small; lia.
 Qed.
 
-Lemma norm_axes_mod r l : 1 <= r ->
+Lemma norm_axes_zmod r l : 1 <= r ->
   norm_axes r l = if existsb (zout (Z.of_nat r)) l then None else Some (map (fun x => Z.to_nat (x mod Z.of_nat r)) l).
 Proof.
   intros Hr. induction l as [|a l IH]; [reflexivity|].
-  cbn [norm_axes existsb map]. rewrite norm_axis_mod by exact Hr. rewrite IH.
+  cbn [norm_axes existsb map]. rewrite norm_axis_zmod by exact Hr. rewrite IH.
   destruct (zout (Z.of_nat r) a); [reflexivity|]. cbn [orb]. destruct (existsb (zout (Z.of_nat r)) l); reflexivity.
 Qed.
 
@@ -210,4 +210,63 @@ Proof.
     destruct (Nat.eqb_spec (off + x) (off + b)); destruct (Nat.eqb_spec x b); try lia; reflexivity.
   - transitivity (map (fun x : nat => x) (seq (off + k) tail)); [|apply map_id]. apply map_ext_in. intros x Hx. apply in_seq in Hx.
     destruct (Nat.eqb_spec x (off + a)); [lia|]. destruct (Nat.eqb_spec x (off + b)); [lia|]. reflexivity.
+Qed.
+
+(* ---- frame: a leading-axis operation applied to the values array (k further item axes) ---- *)
+Lemma norm_axis_frame n k a : zin n a = true -> norm_axis (n + k) a = norm_axis n a.
+Proof.
+  intros H. apply zin_true in H. rewrite !norm_axis_nonneg; [reflexivity|lia|]. rewrite Nat2Z.inj_add. lia.
+Qed.
+
+Theorem nop_frame o n k P :
+  match o with NMove _ _ => False | _ => True end ->
+  nop_inrange o n = true -> nop_perm o n = Some P -> nop_perm o (n + k) = Some (P ++ seq n k).
+Proof.
+  intros Hk Hin Hp. destruct o as [|a b|a b|s d]; cbn [nop_perm nop_inrange] in *; [| | |destruct Hk].
+  - injection Hp as <-. rewrite seq_app. reflexivity.
+  - apply andb_true_iff in Hin. destruct Hin as [Ha Hb]. unfold swap_perm in *.
+    rewrite !norm_axis_frame by assumption. apply zin_true in Ha. apply zin_true in Hb.
+    rewrite !norm_axis_nonneg in * by assumption. injection Hp as <-. rewrite swapP_frame by lia. reflexivity.
+  - apply andb_true_iff in Hin. destruct Hin as [Hin Hb2]. apply andb_true_iff in Hin. destruct Hin as [Ha Hb1].
+    apply Z.leb_le in Hb1. apply Z.leb_le in Hb2. unfold roll_perm in *. rewrite norm_axis_frame by assumption.
+    apply zin_true in Ha. rewrite norm_axis_nonneg in * by assumption. rewrite roll_start_norm in *. cbv zeta in *.
+    destruct (Z.ltb_spec b 0); [lia|]. destruct (Z.ltb_spec b 0); [lia|].
+    destruct (Z.geb_spec b (Z.of_nat n + 1)); [lia|]. destruct (Z.geb_spec b (Z.of_nat (n + k) + 1)); [lia|].
+    cbn [orb] in *. injection Hp as <-. rewrite rollP_frame; [reflexivity|lia|].
+    destruct (Nat.ltb_spec (Z.to_nat a) (Z.to_nat b)); lia.
+Qed.
+
+(* np.moveaxis: the same frame property, bounded (B): leading rank <= 4, up to 2 item axes, every pair of
+   duplicate-free source / destination lists of equal length *)
+Fixpoint sublists_upto (m : nat) (pool : list Z) : list (list Z) :=
+  match m with
+  | 0 => [[]]
+  | S m' => [] :: flat_map (fun x => map (cons x) (sublists_upto m' pool)) pool
+  end.
+Definition move_frame_ok (n k : nat) : bool :=
+  let pool := map Z.of_nat (seq 0 n) in
+  forallb (fun s => forallb (fun d =>
+     match nop_perm (NMove s d) n with
+     | Some P => match nop_perm (NMove s d) (n + k) with
+                 | Some Q => if nop_inrange (NMove s d) n then (if list_eq_dec Nat.eq_dec Q (P ++ seq n k) then true else false) else true
+                 | None => false
+                 end
+     | None => true
+     end) (sublists_upto n pool)) (sublists_upto n pool).
+Theorem move_frame_B : forallb (fun n => forallb (move_frame_ok n) [0; 1; 2]) [0; 1; 2; 3; 4] = true.
+Proof. vm_compute. reflexivity. Qed.
+
+(* ---- the permutations of ShpModel are the ones C15Model's NumPy functions transpose by ---- *)
+Lemma np_swapaxes_perm a b s : np_swapaxes a b s = option_map (fun P => np_transpose P s) (swap_perm a b (length s)).
+Proof. unfold np_swapaxes, swap_perm. destruct (norm_axis (length s) a); [|reflexivity]. destruct (norm_axis (length s) b); reflexivity. Qed.
+Lemma np_rollaxis_perm a b s : np_rollaxis a b s = option_map (fun P => np_transpose P s) (roll_perm a b (length s)).
+Proof.
+  unfold np_rollaxis, roll_perm. cbv zeta. destruct (norm_axis (length s) a); [|reflexivity].
+  destruct (roll_start (length s) n b); reflexivity.
+Qed.
+Lemma np_moveaxis_perm a b s : np_moveaxis a b s = option_map (fun P => np_transpose P s) (move_perm a b (length s)).
+Proof.
+  unfold np_moveaxis, move_perm. cbv zeta. destruct (norm_axes (length s) a); [|reflexivity].
+  destruct (norm_axes (length s) b); [|reflexivity].
+  destruct (nodupb l && nodupb l0 && Nat.eqb (length l) (length l0)); reflexivity.
 Qed.
